@@ -27,6 +27,8 @@ from vf.sym2smt import Translator
 REACTIONS.update({
     "J/psi->pi0 pi+ pi- (rho)": dict(initial_state=("J/psi(1S)", [-1, +1]), final_state=["pi0", "pi+", "pi-"],
                                     allowed_intermediate_particles=["rho(770)"], allowed_interaction_types=["strong"]),
+    "eta_c->pi0 eta eta' (a0,a2)": dict(initial_state="eta(c)(1S)", final_state=["pi0", "eta", "eta'(958)"],
+                                       allowed_intermediate_particles=["a(0)(1450)0", "a(2)(1320)0"], allowed_interaction_types=["strong", "em"]),
     "J/psi->omega pi+ pi- (b1)": dict(initial_state=("J/psi(1S)", [+1]), final_state=[("omega(782)", [-1, 0, +1]), "pi+", "pi-"],
                                      allowed_intermediate_particles=["b(1)(1235)+"], allowed_interaction_types=["strong"]),
 })  # fmt: skip
@@ -243,6 +245,9 @@ def configs(tier):
     reactions = ["J/psi->gamma f0,f2", "J/psi->pi0 pi+ pi- (rho)", "J/psi->K0 Sigma+ p~"]
     if tier == "thorough":
         reactions += ["J/psi->pi0 omega(->gamma pi0)", "J/psi->omega pi+ pi- (b1)", "D0->K0 K+ K- (a0,phi)"]
+    # an S-wave node with a spin-1 parent (L = 0 must reach the builder), and one resonance in several topologies
+    out.append({"name": "J/psi->omega pi+ pi- (b1)|canonical-helicity|name:uf", "reaction": "J/psi->omega pi+ pi- (b1)", "formalism": "canonical-helicity", "script": scripts["name:uf"]})
+    out.append({"name": "eta_c->pi0 eta eta' (a0,a2)|canonical-helicity|name:uf", "reaction": "eta_c->pi0 eta eta' (a0,a2)", "formalism": "canonical-helicity", "script": scripts["name:uf"]})
     for r in reactions:
         for formalism in ("helicity", "canonical-helicity"):
             for sname, sc in scripts.items():
